@@ -17,6 +17,8 @@ def check(ctx):
     ctx.sub(s2_s3_call)
     ctx.sub(s4_order_diff)
     ctx.sub(s5_sizers)
+    from . import c18
+    ctx.sub(c18.state_scan, ('PortfolioConstructionModel',))     # what it remembers between rebalances must not change what it answers (a vector handed out and then changed in place)
     from . import c08
     ctx.sub(c08.execution)             # once those orders fill: every order returned is submitted, none filtered
     from . import c04
